@@ -64,6 +64,64 @@ class GramPolicy(Policy):
         self.steps.append(("step", p))
         return ok(result())
 
+    # ---- peeking at the stream (`input.as_bytes().first()`, `input.chars().next()`, `input.starts_with(c)`) to choose a
+    # branch: read as `peek(lit)` / `not(alt(lits))` steps in front of what the branch runs
+    def stream_first(self, interp, tok, as_char=False):
+        self.check_current(interp, tok, "a look at the first character")
+        d = self.ctx.choose("first-byte-present", 2)
+        if d == 1:
+            self.steps.append(("step", P("prim", extra="eof")))
+            return NONE
+        self.steps.append(("step", P("peek", [P("prim", extra="any")])))
+        t = Tok("C", "first-byte#%d" % len(self.steps), 0, dom="input-first-byte",
+                extra={"decided": None, "excluded": set(), "at": len(self.steps)})
+        return some(t if as_char else Ptr(Cell(t)))
+
+    def first_byte_decide(self, interp, t, lits):
+        st = t.extra
+        if any((not isinstance(l, int)) or l >= 0x80 or l < 0 for l in lits):
+            raise Inconclusive("first character of the stream compared with %r" % (lits,), interp.where())
+        if st["decided"] is not None:
+            return st["decided"]
+        cands = [l for l in lits if l not in st["excluded"]]
+        if not cands:
+            return next(b for b in range(1, 128) if b not in st["excluded"])
+        if len(self.steps) != st["at"]:
+            raise Inconclusive("the first character of the stream is examined after further parsing", interp.where())
+        d = self.ctx.choose("first-byte-is", len(cands) + 1)
+        if d < len(cands):
+            st["decided"] = cands[d]
+            self.steps.append(("step", P("peek", [P("lit", extra=chr(cands[d]))])))
+            st["at"] = len(self.steps)
+            return cands[d]
+        st["excluded"] |= set(cands)
+        self.steps.append(("step", P("not", [P("alt", [P("lit", extra=chr(c)) for c in cands])])))
+        st["at"] = len(self.steps)
+        return next(b for b in range(1, 128) if b not in st["excluded"])
+
+    def int_cmp(self, interp, a, b, op="Cmp"):
+        for t, other, first in ((a, b, True), (b, a, False)):
+            if isinstance(t, Tok) and t.dom == "input-first-byte":
+                if isinstance(other, bool) or not isinstance(other, int) or op not in ("Eq", "Ne"):
+                    raise Inconclusive("first character of the stream in a comparison %s with %r" % (op, other), interp.where())
+                v = self.first_byte_decide(interp, t, [other])
+                return (v, other) if first else (other, v)
+        return Policy.int_cmp(self, interp, a, b, op)
+
+    def stream_starts_with(self, interp, tok, pat):
+        from .wmodels import to_class, CharSet
+        self.check_current(interp, tok, "starts_with")
+        if isinstance(pat, StrV):
+            inner = P("lit", extra=pat.s)
+        else:
+            cls = to_class(interp, pat)
+            if not isinstance(cls, CharSet):
+                raise Inconclusive("starts_with with a predicate pattern on the stream", interp.where())
+            inner = P("take_while", [cls], extra=(1, 1))
+        d = self.ctx.choose("starts-with", 2)
+        self.steps.append(("step", P("peek", [inner]) if d == 0 else P("not", [inner])))
+        return d == 0
+
     def stream_strip_prefix(self, interp, tok, pat, info):
         """`input.strip_prefix(pat)` on the stream text: read as `opt(one of pat)` — both outcomes are explored; the
         returned remainder is a stream token, the caller is expected to store it back (`*input = rest`)."""
@@ -112,7 +170,9 @@ def default_value(prog, tix, name="r", depth=0):
         if n == "std::option::Option":
             return some(default_value(prog, t["args"][0], name, depth + 1))
         if n == "std::vec::Vec":
-            return ListV(())
+            # the list a stubbed parser returns: whether it is empty is not known to the extraction (both outcomes are
+            # explored where the function asks), its elements are never looked at
+            return Tok("L", name, (), dom="default-list")
         if n == "std::string::String":
             return Tok("T", name, "", dom=name)
         ad = prog.adts.get(n)
